@@ -93,7 +93,13 @@ fn case_t<T: Sc>(rng: &mut Rng, case: u64, out: &mut CaseOut) {
         out.inconcl("a covariance entry overflows the range of the scalar type");
         return;
     }
-    let corr = widen(&sf.stats.calculate_correlation_matrix());
+    let corr_t = sf.stats.calculate_correlation_matrix();
+    // the deprecated accessor is documented as a drop-in replacement
+    if crate::sc::bits_of(&sf.stats.correlation_matrix_deprecated()) != crate::sc::bits_of(&corr_t) {
+        violation(out, stream, case, "correlation_matrix() (deprecated alias) differs from calculate_correlation_matrix()", json!({"problem": spec.to_json()}));
+        return;
+    }
+    let corr = widen(&corr_t);
     for i in 0..k {
         for j in 0..k {
             // reference in f64 from the reported (widened) covariance; roots taken separately so that
